@@ -30,10 +30,18 @@ func main() {
 	r.Rule("seeded L1 filter sessions: generated chains with real blocks and BIP158 filters (20-320 blocks: at-tip path; 1000-3300: checkpointed path with partial first intervals), 1-5 peers with behaviours honest / lying at a height in cfheaders+filters (omit-script, wrong-hash, unserved = provable; extra-element = unprovable) / lying in checkpoints only / wrong prev header / wrong count / short or long checkpoint list / silent; honest-chain growth and reorganisations between rounds and, in the serial class, a reorganisation injected at the cf.beforeWrite / cf.afterWrite pause points, and injected hard-coded filter checkpoints (true and contradicting). After every block-manager call the committed filter chain is re-read and checked: not ahead of blocks, equals ground truth in provable sessions, otherwise derivable from served hashes, equals checkpoints, by-hash lookups agree, nothing survives for disconnected blocks; at the end liars banned / honest not banned. distinct = (session class, behaviours multiset, step kind, reorg presence, outcome); non-trivial = the step changed the filter store or banned a peer")
 	r.Assume("ground-truth filters/headers come from btcd gcs/builder over generated blocks; scripted queryAllPeers/Dispatcher mimic the real ones' serial callback discipline (real ones are exercised by the network-simulation checks)")
 	nTip, nCp, nHook := r.Pick(40, 1800), r.Pick(24, 900), r.Pick(12, 450)
-	l1.RunManyFilter(r.Seed, nTip, nCp, nHook, l1.FilterCallbacks{
+	r.Rule("family multicp (sessions with two or three hard-coded filter-header checkpoints at 1000/2000/3000, chains of 2050-3250 blocks): liars whose checkpoint list is false at an OLDER hard-coded height and equal to the newest one it covers, either in the list only or with cfheaders chained consistently with the list; peer sets: the liar alone / every responding peer tells the same lie / liars next to honest (and silent) peers; the first plans are seed-independent. Same oracle, plus: every peer whose list, as handed to resolveConflict, differs from a hard-coded checkpoint is banned when that call returns. fingerprint additionally carries the family name")
+	nMulti := r.Pick(9, 240)
+	cbs := l1.FilterCallbacks{
 		OnStep: func(fs *l1.FilterSession, st *l1.StepObs) {
 			changed := len(st.PreF) != len(st.PostF)
 			fp := fmt.Sprintf("%s|%s|chg=%v|reorgAt=%s|cps=%d", behaviours(fs), st.Kind, changed, fs.Plan.ReorgAt, len(fs.Plan.FilterCPs))
+			if fs.Plan.Family != "" {
+				fp += "|" + fs.Plan.Family
+				if st.Kind == "cf.resolve" {
+					fp += fmt.Sprintf("|contradicting-lists=%d", len(fs.ResolveOffenders))
+				}
+			}
 			r.Case(fp, changed || len(fs.Bans) > 0)
 			r.Count("steps", 1)
 			r.Count("filter_headers_committed", int64(max(0, len(st.PostF)-len(st.PreF))))
@@ -70,12 +78,34 @@ func main() {
 				r.Count("sessions_converged", 1)
 			}
 			r.Count("bans_observed", int64(len(fs.Bans)))
+			r.Count("lists_contradicting_a_hardcoded_checkpoint", int64(fs.CPListsContradicting))
+			r.Count("lists_false_at_older_checkpoint_only", int64(fs.CPListsOlderOnly))
+			if fs.Plan.Family != "" {
+				r.Count("multicp_sessions", 1)
+				r.Count("sessions:"+fs.Plan.Family, 1)
+			}
 			r.Count("queryAllPeers_calls", int64(fs.Net.QueriesAll))
 			r.Count("dispatcher_batches", int64(fs.Net.QueriesBatch))
 			r.Sample(map[string]any{"plan": fs.Plan, "script_tail": tail(fs.Steps, 8), "bans": fs.Bans,
 				"final_block_tip": len(st.Post) - 1, "final_filter_tip": len(st.PostF) - 1})
 		},
-	})
+	}
+	// Development aid: C03_MULTICP_ONLY=1 runs only the multicp family (and
+	// prints every session's script); never set by registered commands.
+	devOnly := os.Getenv("C03_MULTICP_ONLY") != ""
+	if devOnly {
+		end := cbs.OnEnd
+		cbs.OnEnd = func(fs *l1.FilterSession, err error) {
+			if fs != nil {
+				fmt.Fprintf(os.Stderr, "== %s %s cps=%v chain=%d bans=%v\n   %s\n", fs.Plan.Name, fs.Plan.Family, fs.Plan.FilterCPs, fs.Plan.ChainLen, fs.Bans, strings.Join(fs.Steps, "\n   "))
+			}
+			end(fs, err)
+		}
+		l1.RunMultiCPFilter(r.Seed, nMulti, cbs)
+		r.Finish(1)
+	}
+	l1.RunManyFilter(r.Seed, nTip, nCp, nHook, cbs)
+	l1.RunMultiCPFilter(r.Seed, nMulti, cbs)
 	// L2 part: the REAL cfHandler loop (cached checkpoints, waits, retries),
 	// real queryAllPeers and work manager, with a reorganisation arriving
 	// while block headers are still syncing and filter headers are part-way.
